@@ -11,8 +11,8 @@ TEXT = {
  "C03": "Lean theorems: Token::new = enc, decoded∘new = id, dec∘enc = id, enc∘dec = id on valid tokens (bijection), from_encoded accepts exactly validTok, verbatim, truthful errors. Correspondence on an exhaustive small alphabet scope + long random strings; independent escape/unescape oracles on the real crate.",
  "C04": "Lean theorems: tokens(from_tokens L) decoded = L, count, text = concat('/'+enc l), from_tokens(tokens p) = p, injectivity both ways, every accessor and builder equals the list operation. Correspondence: all accessor fields of the real crate vs model on generated lists and pointer texts; Vec<String> reference oracle.",
  "C05": "Lean theorems: the resolve loop = RFC 6901 walk over the token list (success, location, first failing step and kind), result is the node at the returned location, every node is addressable by its spelled path and only by it, no panic. Correspondence: location computed from the real reference's address, error kind, on tiny-grammar exhaustive + generated documents; independent walker oracle.",
- "C06": "`Assign::assign` → `assign_value` → `assign_array` / `assign_object` / `assign_scalar` → `expand` (all of src/assign.rs's walk, both backends; `&mut` references as document locations), Index::from_str and Index::for_len_incl",
- "C07": "`Assign::assign` → `assign_value` → `assign_array` / `assign_object` / `assign_scalar` → `expand` (all of src/assign.rs's walk, both backends; `&mut` references as document locations), Index::from_str and Index::for_len_incl",
+ "C06": "`Assign::assign` → `assign_value` → `assign_array` / `assign_object` / `assign_scalar` → `expand` (all of src/assign.rs's walk, both backends; `&mut` references as document locations), Index::from_str, Index::for_len_incl, `Token::to_index` and `Display for Token` (what `token.to_string()` means)",
+ "C07": "`Assign::assign` → `assign_value` → `assign_array` / `assign_object` / `assign_scalar` → `expand` (all of src/assign.rs's walk, both backends; `&mut` references as document locations), Index::from_str, Index::for_len_incl, `Token::to_index` and `Display for Token` (what `token.to_string()` means)",
  "C08": "Lean theorems: delete = deleteSpec (walk + removeAt), Some iff resolves, None ⇒ unchanged, never panics (Vec::remove guarded by for_len), root. Correspondence on documents/pointers aimed at index = len, len+1, '-', empty arrays; laws on the real crate.",
  "C09": "the four `resolve`/`resolve_mut` walks, both `delete` impls and `Assign::assign` → `assign_value` → `assign_array` / `assign_object` / `assign_scalar` → `expand` (all of src/assign.rs's walk, both backends; `&mut` references as document locations), `parse_index`, `Index::from_str`, `Index::for_len`",
  "C10": "every call a history can make: `Assign::assign` → `assign_value` → `assign_array` / `assign_object` / `assign_scalar` → `expand` (all of src/assign.rs's walk, both backends; `&mut` references as document locations), `delete` (both backends), the `resolve`/`resolve_mut` walks, `Index::from_str`, `Index::for_len` — `Jp.Tie.genStep` is one step made of regenerated functions only",
@@ -45,6 +45,7 @@ TIE = {
  "C06": "the `expand` helper of `assign` (both backends), Index::from_str and Index::for_len_incl (`assign_value` itself is not translated)",
  "C07": "the `expand` helper of `assign` (both backends), Index::from_str and Index::for_len_incl (`assign_value` itself is not translated)",
  "C17": "the 17 hand-written `PartialEq` impls and the 15 `PartialOrd` impls between Pointer, &Pointer, PointerBuf, str, &str and String (one function per impl block)",
+ "C18": "the `Display` impls of Token (decoded text), Pointer, PointerBuf (the text unchanged) and Index — `fmt` as the text written to the formatter; the serde impls and the `From`/`Into` conversions are not translated",
  "C19": "the token, range-slicing, splitting and prefix/suffix functions listed for C03, C12, C13, C04",
 }
 def tie_text(pid):
